@@ -277,8 +277,15 @@ impl Iterator for MarkdownIterator<'_> {
                     .and_then(|s| if s.trim().is_empty() { None } else { Some(s) })
                 {
                     vec![(self.line_index - 1, config.into())]
-                } else {
+                } else if config.trim().is_empty()
+                    || config.trim_end().strip_prefix('{').and_then(|s| s.strip_suffix('}')).is_some()
+                {
                     vec![]
+                } else {
+                    // not a `{..}` group: handed on as it is, so that reading
+                    // it as configuration fails instead of silently ignoring
+                    // what is written there
+                    vec![(self.line_index - 1, config.trim().into())]
                 };
 
                 // gather leading comments and then code until the closing
